@@ -504,14 +504,20 @@ class C03(Spec):
 SPEC = C03()
 
 CLAIM = dict(
-    text=("Kernel-checked theorems over ALL coupon streams, lg_k and target types of an executable Lean model of hll_sketch: in HLL "
-          "mode every register is the maximum coupon value of its slot; mode, coupon set and registers are a function of the set of "
-          "distinct coupons (order and multiplicity do not matter); the 4-, 6- and 8-bit types, a start-full-size sketch and a "
-          "converted copy hold the same registers; emptiness is reported exactly; concrete HLL_4 (nibbles + cur_min + aux exceptions + "
-          "shiftToBiggerCurMin), HLL_6 and HLL_8 arrays refine the register abstraction. The model (incl. the estimators executed in the "
-          "code's floating-point operation order) is tied to the real headers by differential correspondence on generated histories and "
-          "by the property oracle on every implementation trace; tables/constants are regenerated from the headers every run."),
-    note=("Modelled, not verified: MurmurHash3 transcription (tied differentially); floating-point estimators are compared bit-for-bit "
-          "but no theorem is stated about their accuracy (C06); the hash-set probe walk and the aux-map open addressing are abstracted."),
+    text=("Kernel-checked theorems over ALL coupon streams, lg_k, target types and tunables of an executable Lean model of hll_sketch: "
+          "in HLL mode every register is the maximum coupon value of its slot (hll_regs_max); LIST/SET mode holds exactly the distinct "
+          "coupons (hll_coupons_exact); mode, coupon set and registers are a function of the SET of distinct coupons - order and "
+          "multiplicity do not matter (hll_content_fun_of_set); HLL_4/6/8, a start-full-size sketch and a converted copy hold the same "
+          "content (hll_types_agree, hll_start_full_agrees, hll_convert_preserves); emptiness is exact (hll_empty_iff); the concrete "
+          "arrays refine the register abstraction: HLL_4 nibbles + cur_min + aux exceptions + shiftToBiggerCurMin with every throw branch "
+          "unreachable (hll4_refines, hll4_stream_agrees), HLL_6 bit packing (hll6_refines), HLL_8 (hll8_refines); in exact arithmetic "
+          "kxq0+kxq1 = sum of 2^-register, so the composite estimate is a function of the registers (hll_kxq_exact, table obligation "
+          "gen_invPow2_exact). The model (incl. the estimators executed in the code's floating-point operation order, compared bit for "
+          "bit) is tied to the real headers by differential correspondence on generated histories, by the property oracle on every "
+          "implementation trace, and by tables/constants regenerated from the headers and cross-checked against the compiled values."),
+    note=("Modelled, not verified: MurmurHash3 transcription (tied differentially through the coupon function); floating-point estimates "
+          "and the bound order lb <= est <= ub are executed, compared and checked by the oracle but not proved (accuracy: C06); the "
+          "hash-set duplicate test is modelled as membership and the aux-map open addressing as an association list; register values "
+          "above ~25 are never produced by hashing within the search budget (the theorems cover them, correspondence does not)."),
     technique="Lean 4 invariant/refinement proofs + differential correspondence (model vs real headers, ASan/UBSan) + trace oracle + translator tie",
     design="DESIGN.md §3 C03")
